@@ -69,6 +69,42 @@ def inplace_sites(fi, name):
     return out
 
 
+# constructors of scipy.sparse that build a fresh container from their
+# arguments (no side effect, deterministic)
+SPARSE_MODULES = ('sparse', 'scipy.sparse', 'sp.sparse', 'sps', 'spsparse')
+SPARSE_BUILDERS = {'diags', 'diags_array', 'spdiags', 'eye', 'eye_array', 'identity'} | {
+    '%s_%s' % (f, k) for f in ('csr', 'csc', 'lil', 'coo', 'dok', 'bsr', 'dia') for k in ('matrix', 'array')}
+
+
+def sparse_builder(e):
+    """Name of the scipy.sparse constructor that e calls (`sparse.diags(...)`), else None."""
+    if not isinstance(e, ast.Call):
+        return None
+    cn = call_name(e) or ''
+    if '.' not in cn:
+        return None
+    modname, last = cn.rsplit('.', 1)
+    return last if modname in SPARSE_MODULES and last in SPARSE_BUILDERS else None
+
+
+def pure_x(e):
+    """normal.is_pure, with the scipy.sparse constructors counted as pure."""
+    if is_pure(e):
+        return True
+
+    class _T(ast.NodeTransformer):
+        def visit_Call(self, node):
+            self.generic_visit(node)
+            if sparse_builder(node) is not None:
+                return ast.copy_location(ast.Tuple(elts=list(node.args) + [k.value for k in node.keywords], ctx=ast.Load()), node)
+            return node
+    import copy
+    try:
+        return is_pure(_T().visit(copy.deepcopy(e)))
+    except Exception:
+        return False
+
+
 def def_stmt(fi, e):
     """The statement to report for expression e: its single definition if e is
     a name with one, else the statement it occurs in."""
@@ -105,7 +141,7 @@ def carried_def(fi, name_node):
         v = fi.def_value(site, name)
     else:
         return None
-    if v is None or isinstance(v, ast.GeneratorExp) or not is_pure(v):
+    if v is None or isinstance(v, ast.GeneratorExp) or not pure_x(v):
         return None
     use = fi.stmt(name_node)
     if use is None:
@@ -262,6 +298,42 @@ def comm_def(fi, e):
 
 
 SIZE_FORMS = ['len(_X)', '_X.shape[_I]', '_X.size', 'int(len(_X))', 'int(_X.shape[_I])']
+
+
+def never_none(fi, e, depth=6):
+    """e cannot evaluate to None: a non-None constant, a size expression
+    (len(X) / X.shape[i] / X.size), the result of an arithmetic operator or a
+    comparison, or a Name all of whose reaching definitions bind such a value.
+    Decided from the VALUE BOUND at each definition site: a later rebinding of
+    an operand (`n = T.shape[0]; T = T.tolil()`) does not make the number that
+    was bound any less of a number, so - unlike an expansion of the temporary -
+    nothing has to be shown about the statements between definition and use."""
+    if depth <= 0 or e is None:
+        return False
+    if isinstance(e, ast.Constant):
+        return e.value is not None
+    if isinstance(e, (ast.BinOp, ast.UnaryOp, ast.Compare, ast.Tuple, ast.List, ast.Dict, ast.Set, ast.JoinedStr)):
+        return True
+    if match_any(SIZE_FORMS, canon(e)) is not None:
+        return True
+    if isinstance(e, ast.IfExp):
+        return never_none(fi, e.body, depth - 1) and never_none(fi, e.orelse, depth - 1)
+    if isinstance(e, ast.Name) and isinstance(e.ctx, ast.Load):
+        try:
+            defs = fi.defs_of_use(e)
+        except Exception:
+            return False
+        if not defs:
+            return False
+        for d in defs:
+            if isinstance(d, ast.AugAssign) and isinstance(d.target, ast.Name):
+                continue
+            if not isinstance(d, (ast.Assign, ast.AnnAssign)):
+                return False
+            if not never_none(fi, fi.def_value(d, e.id), depth - 1):
+                return False
+        return True
+    return False
 
 
 def comm_call(fi, e):
@@ -433,12 +505,59 @@ def oriented(e, sizes):
 CONVERSIONS = {'tolil', 'tocsr', 'tocsc', 'tocoo', 'tobsr', 'todok', 'todia', 'copy'}
 
 
-def product_factors(e, mode, tprob, sizes):
+def diag_vector(e, mode):
+    """v if e builds the square matrix diag(v) with v on the MAIN diagonal:
+    sparse.diags(v) / sparse.diags(v, 0) / sparse.diags([v], [0]) /
+    sparse.diags_array(v) / sparse.spdiags(v, 0, n, n) (any storage format),
+    in dense context also np.diag(v) / np.diagflat(v).  None otherwise."""
+    while isinstance(e, ast.Call) and isinstance(e.func, ast.Attribute) and e.func.attr in CONVERSIONS and not e.args and not e.keywords \
+            and isinstance(e.func.value, ast.Call):
+        e = e.func.value
+    if not isinstance(e, ast.Call):
+        return None
+    b = sparse_builder(e)
+    if b in ('diags', 'diags_array'):
+        a = bind_args(e, ['diagonals', 'offsets', 'shape', 'format', 'dtype'])
+        if a is None or 'diagonals' not in a or 'shape' in a:
+            return None
+        v, off = a['diagonals'], a.get('offsets')
+        if isinstance(v, (ast.List, ast.Tuple)):
+            if len(v.elts) != 1 or not (isinstance(off, (ast.List, ast.Tuple)) and len(off.elts) == 1 and zero_const(off.elts[0])):
+                return None
+            return v.elts[0]
+        return v if off is None or zero_const(off) else None
+    if b == 'spdiags':
+        a = bind_args(e, ['data', 'diags', 'm', 'n', 'format'])
+        if a is None or 'data' not in a or not zero_const(a.get('diags')) or 'm' not in a:
+            return None
+        if 'n' in a and u(a['n']) != u(a['m']):
+            return None
+        return a['data']
+    if mode == 'dense' and call_name(e) in ('np.diag', 'np.diagflat') and len(e.args) == 1 and not e.keywords:
+        return e.args[0]
+    return None
+
+
+def product_factors(e, mode, tprob, sizes, vectors=(), family=None):
     """Factor lists of an elementwise product tree.
     -> (base, rows, cols, problems): occurrences of the matrix, factors
     broadcast along rows (trailing new axis), along columns, and the
-    sub-expressions that are not an elementwise product of plain names."""
+    sub-expressions that are not an elementwise product of plain names.
+
+    Scaling by a diagonal matrix with the MATRIX product is the same function:
+    X @ diag(v) scales column j by v[j], diag(v) @ X scales row i by v[i]
+    (`@` and .dot are the matrix product for ndarrays and for both
+    scipy.sparse container families).
+
+    `family` (a list) receives the `*` operations of the sparse branch whose
+    meaning depends on the scipy.sparse container FAMILY: for the *_matrix
+    classes `*` is the matrix product, for the *_array classes it is the
+    elementwise product.  That is the case when one operand is the
+    sparse-capable matrix (contains `tprob`) and the other one is known not to
+    be a scalar: a sparse diagonal matrix, one of the `vectors`, an oriented
+    vector, or the matrix again."""
     base, rows, cols, problems = [], [], [], []
+    vectors = set(vectors)
 
     def vec(x, out):
         if isinstance(x, ast.BinOp) and isinstance(x.op, ast.Mult):
@@ -452,9 +571,49 @@ def product_factors(e, mode, tprob, sizes):
         else:
             problems.append(u(x)[:80])
 
+    def holds_matrix(x):
+        """x is computed from the sparse-capable matrix by container-valued operations."""
+        if isinstance(x, ast.Name):
+            return x.id == tprob
+        if isinstance(x, ast.BinOp) and isinstance(x.op, (ast.Mult, ast.MatMult, ast.Add, ast.Sub)):
+            return holds_matrix(x.left) or holds_matrix(x.right)
+        if isinstance(x, ast.Attribute) and x.attr == 'T':
+            return holds_matrix(x.value)
+        if isinstance(x, ast.Call) and isinstance(x.func, ast.Attribute) and x.func.attr in SPARSE_KEEP | {'dot'}:
+            return holds_matrix(x.func.value) or (x.func.attr == 'dot' and any(holds_matrix(a) for a in x.args))
+        return False
+
+    def non_scalar(x):
+        """x is known to be a vector or a matrix (never a scalar)."""
+        if diag_vector(x, 'sparse') is not None or sparse_builder(x) is not None or oriented(x, sizes) is not None or holds_matrix(x):
+            return True
+        if isinstance(x, ast.Name):
+            return x.id in vectors
+        if isinstance(x, ast.BinOp) and isinstance(x.op, (ast.Mult, ast.Add, ast.Sub, ast.Div)):
+            return non_scalar(x.left) or non_scalar(x.right)        # broadcasting: one non-scalar operand is enough
+        return False
+
+    def matmul(l, r, x, mode):
+        dl, dr = diag_vector(l, mode), diag_vector(r, mode)
+        if dr is not None and dl is None:
+            mat(l, mode)
+            vec(dr, cols)
+        elif dl is not None and dr is None:
+            mat(r, mode)
+            vec(dl, rows)
+        else:
+            problems.append('matrix product whose other operand is not a diagonal matrix diag(v): %s' % u(x)[:80])
+
     def mat(x, mode):
+        if isinstance(x, ast.BinOp) and isinstance(x.op, ast.MatMult):
+            matmul(x.left, x.right, x, mode)
+            return
         if isinstance(x, ast.BinOp) and isinstance(x.op, ast.Mult):
             if mode == 'sparse':
+                other = x.right if holds_matrix(x.left) else x.left if holds_matrix(x.right) else None
+                if family is not None and other is not None and non_scalar(other):
+                    family.append((x, other))
+                    return
                 problems.append('`*` applied to the sparse container (matrix product for scipy.sparse matrices): %s' % u(x)[:80])
                 return
             mat(x.left, mode)
@@ -477,6 +636,9 @@ def product_factors(e, mode, tprob, sizes):
             if x.func.attr in CONVERSIONS and not x.args and (mode == 'sparse' or x.func.attr == 'copy'):
                 mat(x.func.value, mode)
                 return
+            if x.func.attr == 'dot' and len(x.args) == 1 and cn not in ('np.dot', 'numpy.dot'):
+                matmul(x.func.value, x.args[0], x, mode)
+                return
         o = oriented(x, sizes)
         if o is not None:
             vec(o[1], rows if o[0] == 'row' else cols)
@@ -488,6 +650,21 @@ def product_factors(e, mode, tprob, sizes):
 
     mat(e, mode)
     return base, rows, cols, problems
+
+
+def source_stmt(fi, x):
+    """The statement in which the node x of an expanded tree was written (xval
+    keeps the source position of every node it copies), else None."""
+    ln = getattr(x, 'lineno', None)
+    if ln is None:
+        return None
+    best = None
+    for st in fi.cfg.nodes:
+        if isinstance(st, ast.stmt) and not isinstance(st, (ast.If, ast.For, ast.While, ast.With, ast.Try)) \
+                and getattr(st, 'lineno', None) is not None and st.lineno <= ln <= (getattr(st, 'end_lineno', None) or st.lineno):
+            if best is None or st.lineno > best.lineno:
+                best = st
+    return best
 
 
 def d1_fluxes(ck, mod, roles):
@@ -544,8 +721,22 @@ def d1_fluxes(ck, mod, roles):
                     continue
                 labels.add(lab)
                 n_formulas += 1
-                base, rows, cols, problems = product_factors(t, lab, tprob, sizes_m)
+                family = []
+                base, rows, cols, problems = product_factors(t, lab, tprob, sizes_m, vectors=(pi, qf, qb), family=family)
                 construct = '%s: %s' % (lab, u(site)[:200])
+                if family:
+                    x, other = family[0]
+                    where = source_stmt(fi, x) or site
+                    ck.bad(rule + '.sparse-operator', mod, where, F, '`*` between the scipy.sparse-capable matrix and a non-scalar operand',
+                           'in the branch taken for scipy.sparse input the flux product uses the `*` operator on the sparse container: `%s`. '
+                           'Its meaning depends on the container family - for the scipy.sparse *_matrix classes `*` is the MATRIX product, for the '
+                           '*_array classes (csr_array, coo_array, ...; sparse.issparse is True for them as well) it is the ELEMENTWISE product - and '
+                           'the other operand `%s` is not a scalar, so the two families compute different functions of the same operands: at most one '
+                           'of them is T[i,j]*(pi*q-)[i]*q+[j] (elementwise with a diagonal matrix keeps only the diagonal T[i,i], which the reset '
+                           'then zeroes; the matrix product with a vector is a matrix-vector product). Use what every container defines with one '
+                           'meaning: .multiply(...) for the elementwise product, `@` / .dot for the matrix product'
+                           % (u(x)[:160], u(other)[:80]))
+                    continue
                 known = set(want)
                 foreign = [x for x in base + rows + cols if x not in known]
                 stale = [x for x in set(base + rows + cols) if x in known and leaf.get(x) != {want[x]}]
@@ -872,14 +1063,26 @@ class Containers:
         if isinstance(e, ast.IfExp):
             a, b = k(e.body), k(e.orelse)
             return 'sparse' if 'sparse' in (a, b) else a if a == b else None
+        if isinstance(e, ast.BinOp) and isinstance(e.op, (ast.Mult, ast.MatMult)):
+            l, r = k(e.left), k(e.right)
+            if l == 'sparse' and r == 'sparse':
+                return 'sparse'             # matrix or elementwise product of two sparse containers
+            if isinstance(e.op, ast.Mult) and ((l == 'sparse' and isinstance(e.right, ast.Constant)) or (r == 'sparse' and isinstance(e.left, ast.Constant))):
+                return 'sparse'             # scaled by a number
+            return 'dense' if l == 'dense' and r == 'dense' else None
         if isinstance(e, ast.Call):
             cn = call_name(e) or ''
+            if sparse_builder(e) is not None:
+                return 'sparse'
             if isinstance(e.func, ast.Attribute) and not (isinstance(e.func.value, ast.Name) and e.func.value.id in NP_MODS + ('copy', 'sparse', 'scipy')):
                 base = k(e.func.value)
                 if e.func.attr in SPARSE_DENSIFY:
                     return 'dense' if base is not None else None
                 if e.func.attr in SPARSE_KEEP:
                     return base
+                if e.func.attr == 'dot' and len(e.args) == 1 and not e.keywords:
+                    r = k(e.args[0])        # the matrix product, as `@`
+                    return 'sparse' if base == 'sparse' and r == 'sparse' else 'dense' if base == 'dense' and r == 'dense' else None
                 return None
             if cn in ('copy.copy', 'copy.deepcopy') + tuple('%s.%s' % (m, f) for m in NP_MODS for f in NP_KEEP) and len(e.args) >= 1:
                 return k(e.args[0])
@@ -1748,7 +1951,7 @@ class _PathFn:
             return 'unknown'
         if isinstance(t, ast.Constant):
             return 'none' if t.value is None else 'notnone'
-        if match_any(SIZE_FORMS, t) is not None:
+        if match_any(SIZE_FORMS, t) is not None or never_none(caller.fi, a):
             return 'notnone'
         o = getattr(t, '_orig', None)
         if isinstance(t, ast.Name) and o is not None and depth > 0 and t.id in caller.P:
